@@ -55,7 +55,7 @@ PROPS = {
         domains=[("stream", "read", 6000, 80000), ("stream", "exhaustive", 1500, 6000), ("conn", "serve", 400, 4000), ("conn", "cnall4", 1, 1), ("conn", "xtalk", 24, 200), ("conn", "rdl", 1, 1)],
         relevant=["C05:"],
         theorems=["DV.Props.C05."+t for t in ["C05_split","C05_frag","C05_one","C05_eof","C05_in_header","C05_by_length","C05_gen"]],
-        gen_obligations=["Gen.HeaderLength","Gen.MessageBufferLength","Gen.readMessageCalls","Gen.readBodyGuard","Gen.readBodyLength"],
+        gen_obligations=["Gen.HeaderLength","Gen.MessageBufferLength","Gen.readMessageCalls","Gen.readBodyGuard","Gen.readBodyLength","Gen.readDeadlineArming"],
         trusted=CODEC_TRUST + ["Model.Stream hand-written from message.go readHeader/readBody and io.ReadFull's contract"],
     ),
     "C07": dict(
@@ -69,7 +69,7 @@ PROPS = {
         domains=[("mux", "subsets", 6144, 24576), ("mux", "random", 6000, 100000), ("mux", "seq", 4000, 60000)],
         relevant=["C09:"],
         theorems=["DV.Props.C09."+t for t in ["C09_decision","C09_only_registered","C09_lastwins","C09_serve","C09_all_one_key","C09_all_replaced_across_apis","C09_gen"]],
-        gen_obligations=["Gen.allCmdIndex","Gen.capErrorReports","Gen.muxServeRLockDeferred"],
+        gen_obligations=["Gen.allCmdIndex","Gen.capErrorReports","Gen.muxServeRLockDeferred","Gen.muxDispatchLookups","Gen.muxStructFields"],
         trusted=["Model.Mux hand-written from server.go ServeMux; command resolution through the C17 dictionary model"],
     ),
     "C17": dict(
@@ -128,7 +128,7 @@ PROPS = {
         thorough_extra=[("conn", "cnall5", 1, 1)],
         relevant=["C15:"],
         theorems=["DV.Props.C15."+t for t in ["C15_panic_contained","C15_bad_input_contained","C15_one_report","C15_fault_cleanup","C15_frame","C15_mux_lock","C15_mux_lock_needs_defer","C15_listener","C15_listener_perm","C15_write_contained","C15_late_write_fails","C15_write_needs_own_writer","C15_pool_exclusive","C15_pool_double_put_counterexample","C15_pool_gen","C15_fault_closes_despite_stuck_writer","C15_close_gen","C15_gen"]],
-        gen_obligations=["Gen.serveDeferRecover","Gen.serveDeferClose","Gen.serveDeferNotify","Gen.muxServeRLockDeferred","Gen.acceptRetryCond","Gen.acceptBackoffFirstMs","Gen.acceptBackoffFactor","Gen.acceptBackoffMaxMs","Gen.acceptResetsDelay","Gen.acceptSpawnsServe","Gen.serveDefersListenerClose","Gen.capErrorReports","Gen.connBufferSources","Gen.tlsHandshakeSites","Gen.poolUsers","Gen.closePaths"],
+        gen_obligations=["Gen.serveDeferRecover","Gen.serveDeferClose","Gen.serveDeferNotify","Gen.muxServeRLockDeferred","Gen.acceptRetryCond","Gen.acceptBackoffFirstMs","Gen.acceptBackoffFactor","Gen.acceptBackoffMaxMs","Gen.acceptResetsDelay","Gen.acceptSpawnsServe","Gen.serveDefersListenerClose","Gen.capErrorReports","Gen.connBufferSources","Gen.tlsHandshakeSites","Gen.poolUsers","Gen.closePaths","Gen.serveReportCond"],
         trusted=CONN_TRUST + ["Model.Listener hand-written from Server.Serve's accept loop; back-off constants regenerated",
                               "Model.ConnWrite: writer objects and the transports they point at (Server.newConn, response.Write); that each connection allocates its own bufio.Writer is the regenerated fact Gen.connBufferSources"],
     ),
